@@ -6,12 +6,14 @@ cd "$(dirname "$0")/.."
 for d in seeded/C*/; do
   id=$(basename "$d"); prop=${id%%-*}
   if [ $# -gt 0 ]; then case " $* " in *" $prop "*) ;; *) continue;; esac; fi
-  out=$(tools/seed_verify.py "$d" "$prop" --fast 2>&1)
-  echo "$id $(echo "$out" | /venv/bin/python -c "
+  out=$(mktemp)
+  tools/seed_verify.py "$d" "$prop" --fast > "$out" 2>&1
+  echo "$id $(/venv/bin/python -c "
 import json,sys
 try:
-    r=json.load(sys.stdin)
+    r=json.load(open('$out'))
     if not r.get('patch_applies'): print('PATCH-DOES-NOT-APPLY')
     else: print('exit', r['checks']['$prop']['exit'])
 except Exception as e: print('ERROR', e)")"
+  rm -f "$out"
 done
